@@ -154,6 +154,25 @@ def check_equiv(inp):
       ref.append(jax.tree_util.tree_map(lambda p_, g_: np.asarray(p_ - 0.7 * 0.05 * g_), st.params, c_full))
       st, _ = alg.apply(st, cl)
       got.append(jax.tree_util.tree_map(np.asarray, st.params))
+  elif which == 'apfl_zero':
+    # a client WITH examples whose local update is exactly zero (its data give a zero gradient): it still carries its
+    # example count in the weighted mean, exactly as in FedAvg
+    def pel_nb(params, batch, rng):
+      return (batch['x'] @ params['w'] - batch['y']) ** 2 + 0.0 * params['b']
+    g0 = models.grad(pel_nb)
+
+    def with_zero(r, sizes):
+      return clients_for(r, sizes) + [(b'zero', cds.ClientDataset({'x': np.zeros((5, 2), np.float32), 'y': np.zeros(5, np.float32)}),
+                                       jax.random.PRNGKey(77 + r))]
+
+    def run0(alg):
+      st, out = alg.init(params0()), []
+      for r, sizes in enumerate(rounds):
+        st, _ = alg.apply(st, with_zero(r, sizes))
+        out.append(jax.tree_util.tree_map(np.asarray, st.params))
+      return out
+    ref = run0(fed_avg.federated_averaging(g0, copt, sopt, hp))
+    got = run0(apfl.adaptive_personalized_federated_learning(g0, copt, sopt, hp, 0.5))
   elif which == 'apfl':
     got = run(apfl.adaptive_personalized_federated_learning(grad_fn, copt, sopt, hp, 0.5), rounds)
   for r, (a, b) in enumerate(zip(got, ref)):
@@ -166,6 +185,7 @@ def sweep_equiv(tier, seed):
   for c in ('sgd', 'momentum', 'adam'):
     yield dict(which='fedprox0', copt=c, rounds=R)
     yield dict(which='apfl', copt=c, rounds=R)
+  yield dict(which='apfl_zero', copt='sgd', rounds=R)
   yield dict(which='fedprox_pos', copt='sgd', rounds=R)
   yield dict(which='fedprox_pos', copt='momentum', rounds=R)
   yield dict(which='hyp1', copt='sgd', rounds=R)
